@@ -43,6 +43,7 @@ pub fn dispatch(req: &Value) -> Value {
         "relations" => op_relations(req),
         "total" => op_total(req),
         "ext" => op_ext(req),
+        "lossy_rel" => op_lossy_rel(req),
         "deb822_edit" => op_deb822_edit(req),
         "satisfied" => op_satisfied(req),
         "lossy_doc" => op_lossy_doc(req),
@@ -448,4 +449,35 @@ fn op_deb822_edit(req: &Value) -> Value {
         states.push(st);
     }
     json!({"states": states})
+}
+
+fn mk_lossy_rel(v: &Value) -> debian_control::lossy::Relation {
+    use debian_control::relations::{BuildProfile, VersionConstraint};
+    let vc = |x: &str| match x { "<<" => VersionConstraint::LessThan, "<=" => VersionConstraint::LessThanEqual, "=" => VersionConstraint::Equal, ">=" => VersionConstraint::GreaterThanEqual, _ => VersionConstraint::GreaterThan };
+    debian_control::lossy::Relation {
+        name: js(&v["name"]),
+        archqual: jopt(&v["archqual"]),
+        architectures: v["archs"].as_array().map(|a| a.iter().map(js).collect()),
+        version: v["version"].as_array().map(|a| (vc(&js(&a[0])), js(&a[1]).parse().unwrap())),
+        profiles: v["profiles"].as_array().map(|gs| gs.iter().map(|g| g.as_array().unwrap().iter().map(|t| if t[0].as_bool().unwrap_or(false) { BuildProfile::Disabled(js(&t[1])) } else { BuildProfile::Enabled(js(&t[1])) }).collect()).collect()).unwrap_or_default(),
+    }
+}
+
+/// C14: lossy relation values -> text -> both readers; lossy <-> lossless conversions
+fn op_lossy_rel(req: &Value) -> Value {
+    use debian_control::{lossless, lossy};
+    let entries: Vec<Vec<lossy::Relation>> = req["entries"].as_array().map(|es| es.iter().map(|e| e.as_array().unwrap().iter().map(mk_lossy_rel).collect()).collect()).unwrap_or_default();
+    let rels = lossy::Relations(entries.clone());
+    let text = rels.to_string();
+    let back = guarded(|| match lossy::Relations::from_str(&text) { Ok(r) => json!({"ok": true, "eq": r == rels, "text2": r.to_string()}), Err(e) => json!({"ok": false, "err": e}) });
+    let lossless_read = guarded(|| { let (r, errs) = lossless::relations::Relations::parse_relaxed(&text, false); json!({"nerrors": errs.len(), "structure": rels_struct(&r)}) });
+    let mut per = vec![];
+    for e in entries.iter() { for x in e.iter() {
+        let t = x.to_string();
+        let single = guarded(|| match lossy::Relation::from_str(&t) { Ok(r) => json!({"ok": true, "eq": &r == x}), Err(e) => json!({"ok": false, "err": e}) });
+        let conv = guarded(|| { let l: lossless::relations::Relation = x.clone().into(); let lt = l.to_string(); let backr: lossy::Relation = l.into(); json!({"lossless_text": lt, "back_eq": &backr == x, "back_text": backr.to_string()}) });
+        per.push(json!({"text": t, "single": single, "conv": conv}));
+    } }
+    let entry_conv: Vec<Value> = entries.iter().map(|e| guarded(|| { let en: lossless::relations::Entry = e.clone().into(); let t = en.to_string(); let back: Vec<lossy::Relation> = en.into(); json!({"text": t, "back_eq": &back == e}) })).collect();
+    json!({"text": text, "back": back, "lossless": lossless_read, "relations": per, "entries": entry_conv})
 }
